@@ -107,14 +107,36 @@ pub fn write_case_files(dir: &Path, tagname: &str, case: &Case, ai: usize) -> (P
     (f, a)
 }
 
-fn simc_argv(file: &Path, debug: bool, debug_first: bool) -> Vec<String> {
-    let f = file.to_string_lossy().to_string();
-    if !debug {
-        vec![f]
-    } else if debug_first {
-        vec!["--debug".into(), f]
-    } else {
-        vec![f, "--debug".into()]
+/// How `simc` is invoked.  All styles name the same file and the same flag, so the result must be
+/// the same.  Returns (argv, working directory).
+pub fn simc_argv(file: &Path, debug: bool, style: u8) -> (Vec<String>, Option<PathBuf>) {
+    let abs = file.to_string_lossy().to_string();
+    let dir = file.parent().map(|p| p.to_path_buf());
+    let name = file.file_name().map(|n| n.to_string_lossy().to_string()).unwrap_or_default();
+    let d = |mut v: Vec<String>, first: bool| -> Vec<String> {
+        if debug {
+            if first {
+                v.insert(0, "--debug".into());
+            } else {
+                v.push("--debug".into());
+            }
+        }
+        v
+    };
+    match style {
+        1 => (d(vec![abs], true), None),
+        2 => (d(vec!["--".into(), abs], true), None),
+        3 => (d(vec![name], false), dir),
+        4 => (d(vec![format!("./{name}")], true), dir),
+        5 => {
+            // a file name that looks like an option, after the `--` separator
+            let dash = format!("-{name}");
+            if let Some(dd) = &dir {
+                let _ = std::fs::copy(file, dd.join(&dash));
+            }
+            (d(vec!["--".into(), dash], true), dir)
+        }
+        _ => (d(vec![abs], false), None),
     }
 }
 
@@ -208,7 +230,12 @@ pub fn run(o: &Opts) -> i32 {
                     rep.count("simc_runs_with_serde_feature_build", 1);
                 }
                 let simc_bin = if use_alt { &alt } else { &ctx.simc };
-                let r = match child::run(simc_bin, &simc_argv(&file, debug, debug_first), hs, &io0) {
+                let style = rng.below(6) as u8;
+                let _ = debug_first;
+                let (argv, cwd) = simc_argv(&file, debug, style);
+                let io0 = Io { cwd, ..io0 };
+                rep.count(&format!("simc_argv_style_{style}"), 1);
+                let r = match child::run(simc_bin, &argv, hs, &io0) {
                     Ok(r) => r,
                     Err(e) => {
                         eprintln!("legC: cannot run simc: {e}");
@@ -227,7 +254,7 @@ pub fn run(o: &Opts) -> i32 {
                 ));
                 rep.nontrivial.insert(fnv1a(format!("simc:{ci}:{debug}:{hs}").as_bytes()));
                 if let Some((class, detail)) = judge_simc(&reference, &r) {
-                    violation(&mut rep, o, class, &detail, case, noargs, debug, "Simc", hs, "", rid, &reference,
+                    violation(&mut rep, o, class, &detail, case, noargs, debug, &format!("Simc:style={style}"), hs, "", rid, &reference,
                         serde_json::json!({"status": r.status, "stdout": String::from_utf8_lossy(&r.stdout), "stderr": String::from_utf8_lossy(&r.stderr)}));
                 }
                 rep.sample(serde_json::json!({"op": "Simc", "case": case.id, "debug": debug, "hash_seed": hs,
@@ -240,8 +267,8 @@ pub fn run(o: &Opts) -> i32 {
                 run_no += 1;
                 let rid = (ci as u64) << 16 | run_no;
                 let log = dir.join("io.log");
-                let io = Io { seed: Some((ios, TRANSPARENT_RATES.to_string())), plan: None, log: Some(log.clone()), stdout_file: None };
-                let r = match child::run(&ctx.simc, &simc_argv(&file, debug, false), hs, &io) {
+                let io = Io { seed: Some((ios, TRANSPARENT_RATES.to_string())), plan: None, log: Some(log.clone()), stdout_file: None, cwd: None };
+                let r = match child::run(&ctx.simc, &simc_argv(&file, debug, 0).0, hs, &io) {
                     Ok(r) => r,
                     Err(e) => {
                         eprintln!("legC: cannot run simc: {e}");
@@ -285,8 +312,8 @@ pub fn run(o: &Opts) -> i32 {
                 let hs = rng.next() | 1;
                 let ios = rng.next();
                 let log = dir.join("io.log");
-                let io = Io { seed: Some((ios, HOSTILE_RATES.to_string())), plan: None, log: Some(log.clone()), stdout_file: None };
-                if let Ok(r) = child::run(&ctx.simc, &simc_argv(&file, debug, false), hs, &io) {
+                let io = Io { seed: Some((ios, HOSTILE_RATES.to_string())), plan: None, log: Some(log.clone()), stdout_file: None, cwd: None };
+                if let Ok(r) = child::run(&ctx.simc, &simc_argv(&file, debug, 0).0, hs, &io) {
                     let (plan, counts, _, _) = child::read_log(&log);
                     rep.count("hostile_runs_recorded_not_judged", 1);
                     for (k, v) in &counts {
